@@ -818,6 +818,7 @@ func TestCheck(t *testing.T) {
 			for f := 0; f < 4; f++ {
 				vals = append(vals, fills(rng, n, f))
 			}
+			vals = append(vals, gen4.Text(rng, n), gen4.Text(rng, n)) // text as clients write it: bare, NUL-terminated, NUL-padded
 			for j := 0; j < nrand; j++ {
 				vals = append(vals, fills(rng, n, 4))
 				if a.gen != nil {
@@ -1151,6 +1152,28 @@ func setGet(r *mon.Rec, idx int) {
 	}
 	if g3 != want {
 		r.Violate("C17:setget-shared:"+name, fmt.Sprintf("%s: set %s; after the same options were set again in ANOTHER packet that shares the values' storage, the first packet reads %s", name, tr(want), tr(g3)), rp)
+		return
+	}
+	// the packet's raw option values are its owner's: every octet of them is overwritten in place; a packet built afterwards
+	// with the same constructors and the same arguments reads what was set in IT (constructors hand out fresh storage,
+	// not windows of a shared table)
+	var g4, want4 string
+	pan, val, st = mon.Guard(func() {
+		for _, v := range p.Options {
+			for i := range v {
+				v[i] ^= 0xff
+			}
+		}
+		q, _, w4, gq, _ := sgBuild(r.Rand("setget", idx), -1)
+		want4 = w4
+		g4 = gq(q)
+	})
+	if pan {
+		r.Violate("C17:setget-panic:"+name+":"+mon.LibFrame(st), fmt.Sprint(val), rp)
+		return
+	}
+	if g4 != want4 {
+		r.Violate("C17:setget-after-overwrite:"+name, fmt.Sprintf("%s: after the raw option values of an earlier packet had been overwritten in place, a new packet set to %s reads %s", name, tr(want4), tr(g4)), rp)
 		return
 	}
 	r.Shape("setget/"+name+fmt.Sprint(len(want)/16), true)
